@@ -45,6 +45,12 @@ class Hdr(ArrowSerializableDataclass):
     n: int
 
 
+@dataclass(frozen=True)
+class Point(ArrowSerializableDataclass):
+    x: int
+    y: int
+
+
 @dataclass
 class PS(ProducerState):
     n: int = 0
@@ -65,6 +71,11 @@ class SvcPlain(Protocol):
     def echo(self, x: int) -> int: ...
     def up(self, s: str) -> str: ...
     def paint(self, c: Color) -> str: ...
+    def box(self, p: Point) -> str: ...
+    def blob(self, n: int) -> bytes: ...
+    def blobp(self, p: Point) -> bytes: ...
+    def genhc(self, c: Color) -> Stream[ProducerState, Hdr]: ...
+    def genp(self, p: Point) -> Stream[ProducerState]: ...
     def cat(self, a: str, n: int) -> str: ...
     def gen(self, n: int) -> Stream[ProducerState]: ...
     def xch(self, k: int) -> Stream[ExchangeState]: ...
@@ -77,6 +88,11 @@ class SvcVer(Protocol):
     def echo(self, x: int) -> int: ...
     def up(self, s: str) -> str: ...
     def paint(self, c: Color) -> str: ...
+    def box(self, p: Point) -> str: ...
+    def blob(self, n: int) -> bytes: ...
+    def blobp(self, p: Point) -> bytes: ...
+    def genhc(self, c: Color) -> Stream[ProducerState, Hdr]: ...
+    def genp(self, p: Point) -> Stream[ProducerState]: ...
     def cat(self, a: str, n: int) -> str: ...
     def gen(self, n: int) -> Stream[ProducerState]: ...
     def xch(self, k: int) -> Stream[ExchangeState]: ...
@@ -105,6 +121,26 @@ class Impl:
     def cat(self, a: str, n: int) -> str:
         self.calls.append(("cat", a, n))
         return a * max(0, min(n, 3))
+
+    def box(self, p: Point) -> str:
+        self.calls.append(("box", p))
+        return f"{p.x},{p.y}"
+
+    def blob(self, n: int) -> bytes:            # a result large enough to be routed through an advertised segment
+        self.calls.append(("blob", n))
+        return b"z" * max(0, min(n, 400_000))
+
+    def blobp(self, p: Point) -> bytes:
+        self.calls.append(("blobp", p))
+        return b"z" * 300_000
+
+    def genhc(self, c: Color) -> Stream[PS, Hdr]:
+        self.calls.append(("genhc", c))
+        return Stream(output_schema=OUT, state=PS(n=1), header=Hdr(n=1))
+
+    def genp(self, p: Point) -> Stream[PS]:
+        self.calls.append(("genp", p))
+        return Stream(output_schema=OUT, state=PS(n=p.x))
 
     def gen(self, n: int) -> Stream[PS]:
         self.calls.append(("gen", n))
@@ -138,6 +174,9 @@ class Segments:
 
     def __init__(self) -> None:
         self.good = ShmSegment.create(HEADER_SIZE + (1 << 20))
+        self.tiny = ShmSegment.create(HEADER_SIZE + 16384)        # ours, but a large result does not fit
+        self.corrupt = ShmSegment.create(HEADER_SIZE + (1 << 20))  # ours by its header; allocation table garbage
+        self.static = ShmSegment.create(HEADER_SIZE + (1 << 20))   # the server side of a ShmPipeTransport
         self.foreign: list[SharedMemory] = []
         for kind in ("zeros", "magic", "version", "datasize", "tiny"):
             size = 16 if kind == "tiny" else HEADER_SIZE + 8192
@@ -150,7 +189,37 @@ class Segments:
                 struct.pack_into("<4sIQII", sm.buf, 0, b"VGIS", 1, 12345, 0, 0)
             self.foreign.append(sm)
 
+    def ours(self, seg: str) -> ShmSegment:
+        return {"good": self.good, "tiny": self.tiny, "corrupt": self.corrupt}[seg]
+
+    def prepare(self, v: int) -> None:
+        """Before every execution: empty allocation tables, and the corrupt segment's table re-corrupted."""
+        for sg in (self.good, self.tiny, self.static):
+            sg.reset()
+        buf = self.corrupt.buf
+        kind = v % 3
+        if kind == 0:                       # count far beyond the table
+            struct.pack_into("<I", buf, 16, 0xFFFFFFFF)
+        elif kind == 1:                     # plausible count, entries nonsense (unsorted, overlapping, beyond the segment)
+            struct.pack_into("<I", buf, 16, 3)
+            for j, (o, ln) in enumerate([(1 << 40, 7), (5, 1 << 50), (HEADER_SIZE, 0)]):
+                struct.pack_into("<QQ", buf, 24 + 16 * j, o, ln)
+        else:                               # maximum count, table full of zero entries
+            struct.pack_into("<I", buf, 16, 4094)
+
+    def store_raw(self, sg: ShmSegment, batch: pa.RecordBatch, at: int = HEADER_SIZE + 2048) -> tuple[int, int]:
+        """Write a one-batch IPC stream into the data region without touching the allocation table."""
+        data = world.ipc_stream(batch.schema, [(batch, None)])
+        sg.buf[at:at + len(data)] = data
+        return at, len(data)
+
     def close(self) -> None:
+        for sg in (self.tiny, self.corrupt, self.static):
+            try:
+                sg.unlink()
+                sg.close()
+            except Exception:  # noqa: BLE001
+                pass
         for sm in self.foreign:
             try:
                 sm.close()
@@ -168,16 +237,41 @@ class Segments:
 
 
 # ------------------------------------------------------------------------------------------------ concretisation
-METHODS = {  # class -> [(wire name, declared parameter schema)]
-    "unary": [("echo", pa.schema([pa.field("x", pa.int64(), nullable=False)])),
-              ("up", pa.schema([pa.field("s", pa.utf8(), nullable=False)])),
-              ("paint", pa.schema([pa.field("c", pa.dictionary(pa.int16(), pa.utf8()), nullable=False)]))],
-    "stream_hdr": [("genh", pa.schema([pa.field("n", pa.int64(), nullable=False)]))],
-    "stream_nohdr": [("gen", pa.schema([pa.field("n", pa.int64(), nullable=False)])),
-                     ("xch", pa.schema([pa.field("k", pa.int64(), nullable=False)]))],
+_REF = RpcServer(SvcPlain, Impl())           # only used to read the declared parameter schemas
+
+
+def schema_of(name: str) -> pa.Schema:
+    return _REF.methods[name].params_schema
+
+
+# class -> concrete methods; "decodable" = methods whose parameter value has to be turned into a Python object
+# (Enum member, dataclass), used for cols = badvalue
+METHODS = {
+    "unary": {"plain": ["echo", "up", "paint", "box"], "decodable": ["paint", "box"]},
+    "unary_big": {"plain": ["blob", "blobp"], "decodable": ["blobp"]},
+    "stream_hdr": {"plain": ["genh", "genhc"], "decodable": ["genhc"]},
+    "stream_nohdr": {"plain": ["gen", "xch", "genp"], "decodable": ["genp"]},
 }
+POINT = Point(3, 4).serialize_to_bytes()
+GOOD_VALUE = {"blob": 300_000, "box": POINT, "blobp": POINT, "genp": POINT, "paint": "GREEN", "genhc": "RED"}
+
+
+def bad_point_values() -> list[bytes]:
+    other = world.ipc_stream(pa.schema([pa.field("x", pa.utf8())]), [(pa.record_batch({"x": ["a"]}), None)])
+    pt_schema = pa.ipc.open_stream(POINT).schema
+    schema_only = world.ipc_stream(pt_schema, [])
+    two = pa.RecordBatch.from_pydict({"x": [1, 2], "y": [3, 4]}, schema=pt_schema) if set(pt_schema.names) == {"x", "y"} else None
+    nulls = world.ipc_stream(pt_schema, [(pa.RecordBatch.from_arrays([pa.nulls(1, f.type) for f in pt_schema], schema=pt_schema), None)])
+    out = [b"garbage", b"", schema_only, POINT[: len(POINT) // 2], other, nulls, b"\xff\xff\xff\xff\x00\x00\x00\x00", POINT[:-8]]
+    if two is not None:
+        out.append(world.ipc_stream(pt_schema, [(two, None)]))
+    return out
+
+
+BAD_POINTS = bad_point_values()
+BAD_MEMBERS = ["PURPLE", "red", "", "RED ", "Color.RED"]
 EMPTY = pa.schema([])
-ECHO = METHODS["unary"][0][1]
+ECHO = schema_of("echo")
 UNKNOWN_NAMES = [b"nope", b"", b"Echo", b"echo ", "ｅcho".encode(), b"e" * 1000, b"__describe__x", b"echo\x00",
                  b"__transport_options__ ", b"vgi_rpc.method"]
 NONUTF8_NAMES = [b"\xff\xfeecho", b"ech\xc3", b"\x80", b"echo\xed\xa0\x80"]
@@ -246,7 +340,7 @@ def perturb_schema(base: pa.Schema, cols: str, v: int, parameterless: bool) -> p
     """cols class -> concrete request schema (v selects the variant)."""
     t = TYPE_POOL[v % len(TYPE_POOL)]
     nm = NAME_POOL[v % len(NAME_POOL)]
-    if cols == "match":
+    if cols == "match" or (cols == "badvalue" and not parameterless):
         return base
     if parameterless:       # every perturbation = columns the method does not declare
         extra = [pa.field(nm or "z", t)] + ([pa.field("z2", pa.int64(), nullable=False)] if v % 2 else [])
@@ -260,21 +354,23 @@ def perturb_schema(base: pa.Schema, cols: str, v: int, parameterless: bool) -> p
     if cols == "missing":
         return pa.schema(list(base)[1:])
     if cols == "retyped":
-        if t == f0.type and not pa.types.is_dictionary(t):
+        if t == f0.type:
             t = pa.float32()
-        if t == f0.type:          # enum parameter, same wire type: the *value* names no member (see concretise)
-            return base
         return pa.schema([pa.field(f0.name, t, nullable=(v % 2 == 1) or pa.types.is_null(t))] + list(base)[1:])
     raise ValueError(cols)
 
 
-def concretise(case: dict, v: int, segs: Segments, rng) -> dict:
-    """One concrete request for an abstract class.  Returns {bytes, method, md, schema, rows, label}."""
+def concretise(case: dict, v: int, segs: Segments, rng, static: bool = False) -> dict:
+    """One concrete request for an abstract class.  Returns {bytes, method, md, schema, rows, label}.
+    static: the connection is served through a ShmPipeTransport -- a valid pointer points into *its* segment."""
     m = case["m"]
     md: dict[bytes, bytes] = {}
     parameterless = m in ("topts", "describe")
+    name = None
     if m in METHODS:
-        name, base = METHODS[m][v % len(METHODS[m])]
+        pool = METHODS[m]["decodable" if case["cols"] == "badvalue" else "plain"]
+        name = pool[v % len(pool)]
+        base = schema_of(name)
         method: bytes | None = name.encode()
     else:
         base = EMPTY if parameterless else ECHO
@@ -287,17 +383,26 @@ def concretise(case: dict, v: int, segs: Segments, rng) -> dict:
     schema = perturb_schema(base, case["cols"], v, parameterless)
     rows = case["rows"]
     label = {}
-    unknown_member = case["cols"] == "retyped" and schema.equals(base)     # enum parameter, same wire type
 
     def payload(nrows: int) -> pa.RecordBatch:
-        if unknown_member and nrows:
-            bad = pa.array(["PURPLE"] * nrows, pa.utf8()).dictionary_encode().cast(schema.field(0).type)
-            return pa.RecordBatch.from_arrays([bad], schema=schema)
+        if schema.equals(base) and len(schema) == 1 and nrows:
+            f = schema.field(0)
+            val = GOOD_VALUE.get(name) if name else None
+            if case["cols"] == "badvalue":
+                if pa.types.is_dictionary(f.type):
+                    val = BAD_MEMBERS[v % len(BAD_MEMBERS)]
+                elif pa.types.is_binary(f.type):
+                    val = BAD_POINTS[v % len(BAD_POINTS)]
+                label["value"] = repr(val)[:60]
+            if val is not None:
+                if pa.types.is_dictionary(f.type):
+                    arr = pa.array([val] * nrows, pa.utf8()).dictionary_encode().cast(f.type)
+                else:
+                    arr = pa.array([val] * nrows, f.type)
+                return pa.RecordBatch.from_arrays([arr], schema=schema)
         return _batch(schema, nrows)
 
     batch = payload(rows)
-    if unknown_member:
-        label["value"] = "unknown enum member"
     # ---- shm segment keys
     seg = case["seg"]
     good_name, good_size = segs.good.name.encode(), str(segs.good.size).encode()
@@ -312,13 +417,29 @@ def concretise(case: dict, v: int, segs: Segments, rng) -> dict:
     elif seg == "foreign":
         sm = segs.foreign[v % len(segs.foreign)]
         md[K_SEG_NAME], md[K_SEG_SIZE] = sm.name.encode(), str(sm.size).encode()
-    elif seg == "good":
-        md[K_SEG_NAME], md[K_SEG_SIZE] = good_name, good_size
-    # ---- shm pointer keys
+    elif seg in ("good", "tiny", "corrupt"):
+        sg = segs.ours(seg)
+        md[K_SEG_NAME], md[K_SEG_SIZE] = sg.name.encode(), str(sg.size).encode()
+    # ---- shm pointer keys (the segment the pointer is meant for: the one the request names, the server's own one
+    # behind a ShmPipeTransport, else the good one)
+    target = segs.static if static else (segs.ours(seg) if seg in ("good", "tiny", "corrupt") else segs.good)
     ptr = case["ptr"]
+
+    def store(b: pa.RecordBatch) -> tuple[int, int]:
+        if target is segs.corrupt:
+            return segs.store_raw(target, b)
+        r = target.allocate_and_write(b)
+        if r is None:
+            raise RuntimeError("harness: request batch does not fit the segment")
+        return r
+
     if ptr == "ok":
-        off, ln = segs.good.allocate_and_write(payload(1))
+        off, ln = store(payload(1))
         md[K_OFF], md[K_LEN] = str(off).encode(), str(ln).encode()
+    elif ptr == "wrongrows":
+        off, ln = store(payload(0 if v % 2 else 2))
+        md[K_OFF], md[K_LEN] = str(off).encode(), str(ln).encode()
+        label["stored_rows"] = 0 if v % 2 else 2
     elif ptr == "garbage":
         g = [(b"xyz", b"100"), (b"", b"100"), (b"-5", b"100"), (b"\xff", b"100"), (b"1.5", b"100"), (b"65536", b"abc"),
              (b"65536", None), (b"65536", b"\xff"), (b"0x10000", b"16")][v % 9]
@@ -326,10 +447,13 @@ def concretise(case: dict, v: int, segs: Segments, rng) -> dict:
         if g[1] is not None:
             md[K_LEN] = g[1]
     elif ptr == "range":
-        size = segs.good.size
+        size = target.size
         if v % 6 == 5:     # valid IPC bytes in the data region, but not (or no longer) a live allocation
-            off, ln = segs.good.allocate_and_write(payload(1))
-            segs.good.free(off)
+            if target is segs.corrupt:
+                off, ln = segs.store_raw(target, payload(1))
+            else:
+                off, ln = target.allocate_and_write(payload(1))
+                target.free(off)
             g = (str(off).encode(), str(ln).encode())
         else:
             g = [(str(size + 10).encode(), b"100"), (str(size - 8).encode(), b"4096"), (b"0", b"64"),
@@ -345,6 +469,36 @@ def concretise(case: dict, v: int, segs: Segments, rng) -> dict:
     md.update(pool[v % len(pool)])
     data = world.raw_request(method, schema, batch=batch, md=md, request_version=rv)
     return {"bytes": data, "method": method, "md": md, "schema": schema, "rows": rows, "label": label}
+
+
+def preludes(hist: str, v: int, segs: Segments, ver: bool) -> list[tuple[bytes, int]]:
+    """What happened on the connection before the request: [(bytes to write, reply streams to wait for)]."""
+    pv = {b"vgi_rpc.protocol_version": SERVER_VERSION.encode()} if ver else {}
+    ok = (world.raw_request(b"echo", ECHO, {"x": 11}, md=pv), 1)
+    gen_s = schema_of("gen")
+    # rejections after which the serve loop expects a header-less stream client's input stream -- which never comes
+    arm = [(world.raw_request(b"no_such_method", ECHO, {"x": 1}, md=pv), 1),
+           (world.raw_request(b"gen", pa.schema([pa.field("n", pa.utf8(), nullable=False)]), {"n": "x"}, md=pv), 1),
+           (world.raw_request(b"xch", pa.schema([pa.field("q", pa.int64(), nullable=False)]), {"q": 1}, md=pv), 1)][v % 3]
+    if hist == "ok":
+        return [ok]
+    if hist == "arm":
+        return [arm]
+    if hist == "arm_ok":
+        return [arm, ok]
+    if hist == "noarm":
+        return [[(world.raw_request(b"echo", pa.schema([pa.field("y", pa.int64(), nullable=False)]), {"y": 1}, md=pv), 1),
+                 (world.raw_request(b"echo", ECHO, {"x": 1}, md=pv, request_version=b"9"), 1),
+                 (world.raw_request(b"genh", pa.schema([pa.field("n", pa.utf8(), nullable=False)]), {"n": "x"}, md=pv), 1),
+                 (world.raw_request(b"__transport_options__", EMPTY, batch=pa.RecordBatch.from_arrays([], schema=EMPTY), md=pv), 1),
+                 # a header-less stream call refused, its orphaned input stream delivered and consumed: nothing is left
+                 (world.raw_request(b"gen", pa.schema([pa.field("n", pa.utf8(), nullable=False)]), {"n": "x"}, md=pv)
+                  + CLOSE_INPUT + world.raw_request(b"echo", ECHO, {"x": 12}, md=pv), 2)][v % 5]]
+    if hist == "shmcached":
+        md = dict(pv)
+        md[K_SEG_NAME], md[K_SEG_SIZE] = segs.good.name.encode(), str(segs.good.size).encode()
+        return [(world.raw_request(b"echo", ECHO, {"x": 13}, md=md), 1)]
+    return []
 
 
 def probe_bytes(x: int, ver: bool) -> bytes:
